@@ -117,6 +117,13 @@ func (mw *Middleware) Wrap(next dnsserver.Handler) (wrapped dnsserver.Handler) {
 		fctx := mw.newFilteringContext(req)
 		defer mw.fltCtxPool.Put(fctx)
 
+		if fctx.isDebug {
+			// Restore the class of the question once the request has been
+			// handled, since req belongs to the caller, which uses it to build
+			// the SERVFAIL response when an error is returned.
+			defer func() { req.Question[0].Qclass = dns.ClassCHAOS }()
+		}
+
 		ri := agd.MustRequestInfoFromContext(ctx)
 		optslog.Debug2(
 			ctx,
